@@ -39,16 +39,32 @@ use std::{
     path::{Path, PathBuf},
 };
 
+#[cfg(test)]
 use once_cell::sync::Lazy;
+use once_cell::sync::OnceCell;
 use rustix::{
     fs::{self as rustix_fs, Access, AtFlags},
     mount::{FsMountFlags, FsOpenFlags, MountAttrFlags, OpenTreeFlags},
 };
 
 /// A `procfs` handle to which is used globally by libpathrs.
+static GLOBAL_PROCFS_HANDLE_CELL: OnceCell<ProcfsHandle> = OnceCell::new();
+
+/// Get the process-wide [`ProcfsHandle`] used internally by libpathrs,
+/// creating it on first use.
+///
+/// Creating the handle involves system calls that can fail (out of file
+/// descriptors, out of memory, ...), in which case the error is returned to the
+/// caller and a later call will try again.
+pub(crate) fn global_procfs_handle() -> Result<&'static ProcfsHandle, Error> {
+    GLOBAL_PROCFS_HANDLE_CELL.get_or_try_init(ProcfsHandle::new)
+}
+
+/// Infallible version of [`global_procfs_handle`] for tests.
 // MSRV(1.80): Use LazyLock.
-pub(crate) static GLOBAL_PROCFS_HANDLE: Lazy<ProcfsHandle> =
-    Lazy::new(|| ProcfsHandle::new().expect("should be able to get some /proc handle"));
+#[cfg(test)]
+pub(crate) static GLOBAL_PROCFS_HANDLE: Lazy<&'static ProcfsHandle> =
+    Lazy::new(|| global_procfs_handle().expect("should be able to get some /proc handle"));
 
 /// Indicate what base directory should be used when doing `/proc/...`
 /// operations with a [`ProcfsHandle`].
@@ -519,7 +535,7 @@ impl ProcfsHandle {
         // And make sure it's the root of procfs. The root directory is
         // guaranteed to have an inode number of PROC_ROOT_INO. If this check
         // ever stops working, it's a kernel regression.
-        let ino = inner.metadata().expect("fstat(/proc) should work").ino();
+        let ino = inner.metadata().wrap("fstat procfs handle")?.ino();
         if ino != Self::PROC_ROOT_INO {
             Err(ErrorImpl::SafetyViolation {
                 description: format!(
